@@ -848,7 +848,9 @@ ldb_recover_log_file(ldb_t *db, uint64_t log_number,
   rc = ldb_seqfile_create(fname, &file);
 
   if (rc != LDB_OK) {
-    ldb_maybe_ignore_error(db, &rc);
+    /* Do not ignore this error, even without paranoid checks: the
+       caller would treat the log as recovered and the log would be
+       removed as obsolete, losing every write it holds. */
     return rc;
   }
 
